@@ -599,6 +599,7 @@ pub fn run(s: &Session) {
     s.forall("build-for", s.pick(100_000, 2_000_000), case, check_build_for);
     s.forall("hash-direct", s.pick(50_000, 1_000_000), case, check_hash_direct);
     s.forall("validator-script-integrity", s.pick(10_000, 160_000), validator::vcase, validator::check);
+    s.forall("validator-hash-without-script-data", s.pick(4_000, 60_000), validator::pcase, validator::check_plain);
     s.forall("txbuilder-script-data-hash", s.pick(40_000, 800_000), txbuilder::tcase, txbuilder::check);
 
     if !s.replaying() {
